@@ -355,9 +355,15 @@ def gen_plan(rng, family):
             main.append(["await_all"])
         if rng.random() < 0.5:
             main.append(["pause"])
-        for _ in range(plan["workers"] + rng.randint(0, 2)):
-            main.append(["submit", "block"])
-        plan["final"] = "none"
+        if rng.random() < 0.65:
+            for _ in range(plan["workers"] + rng.randint(0, 2)):
+                main.append(["submit", "block"])
+            plan["final"] = "none"
+        else:
+            # no blocking tasks: ordinary work around the leak exits, then the run must end like any other (C05 / C01 monitors)
+            for _ in range(rng.randint(1, 4)):
+                main.append(["submit", rng.choice(["value", "long", "leak", "raise"])])
+            plan["final"] = rng.choice(["await", "await+shutdown", "shutdown"]) if not plan["reusable"] else "await"
     elif family == "satreuse":                  # C08 delivered, reusable executor: created small, resized up, then saturated (the call queue is created once)
         plan["reusable"] = True
         plan["workers"] = rng.choice([1, 1, 2])
@@ -860,7 +866,7 @@ def analyze(plan, r):
         or (fam == "spawnfail" and notes.get("late_submit") in ("BlockingIOError", "OSError"))
     # (a submit() that failed because a worker could not be started leaves its item registered: observation O3, outside the
     #  properties' fault model -- in that family only the routing of results is judged, not liveness)
-    if fam not in ("saturate", "satreuse", "leakexit") and not spawn_failed and r.status in ("quiescent", "polling") and (not r.users_done or pending):
+    if fam not in ("saturate", "satreuse") and not (fam == "leakexit" and plan["final"] == "none") and not spawn_failed and r.status in ("quiescent", "polling") and (not r.users_done or pending):
         sig = (f"hang status[{r.status}] blocked[{','.join(blocked)}] dead-holders[{','.join(sorted(set(dead_holders)))}] "
                f"crashes[{','.join(sorted(set(crashes)))}] ctx[{ctx}]")
         if any(b_.endswith("sem.acquire:cq.slot") for b_ in blocked):
